@@ -202,10 +202,9 @@ func (c *converter) facts(n ast.Node, wantBasic bool) string {
 	sg := sigfact(typ)
 	istype := info.Types[e].IsType()
 	multi := 0
-	if _, isCall := e.(*ast.CallExpr); isCall {
-		if tup, ok := typ.(*types.Tuple); ok && tup.Len() >= 2 {
-			multi = tup.Len()
-		}
+	// a call yielding several values, possibly wrapped in parentheses: f((g()))
+	if tup, ok := typ.(*types.Tuple); ok && tup.Len() >= 2 {
+		multi = tup.Len()
 	}
 	if wantBasic {
 		if bt, ok := typ.Underlying().(*types.Basic); ok {
